@@ -1,4 +1,20 @@
-"""Gen.HashSites: inventory of every place where the iteration order of a std HashMap/HashSet can be observed."""
+"""Gen.HashSites: inventory of every place where the iteration order of a std HashMap/HashSet can be observed,
+with a fingerprint of what happens INSIDE each iteration.
+
+For every site the generator records
+  * (file, enclosing fn, how the container is traversed [|sorts:<receivers sorted later in the fn>] [|from:<hash source>])
+  * bodyHash          sha256 prefix of the whitespace-normalised loop body / consuming statement
+  * hasEarlyExit      the body leaves early or observes positions: break, return, `?`, find, first, last, next(),
+                      position, nth, take/skip(_while), enumerate, zip, rev, min_by/max_by(_key)
+  * buildsDiagnostic  the body constructs an error or a panic message: Err(..), <X>Error::, panic!/unreachable!/todo!,
+                      assert!/assert_eq!/debug_assert!, expect(..)
+  * firstWins         the body keeps the first value it meets: is_none()/is_some() guards, get_or_insert, or_insert
+A container is "hash ordered" when it is a HashMap/HashSet (typed field / parameter / let, constructor, clone,
+reference, std::mem::take / replace of one) or a Vec that was filled inside an iteration over a hash ordered
+container in the same function (`v.push(..)` in the loop body, or `let v = hash.iter()...collect()`): loops over
+such a Vec are sites too (`|from:<source>`), `|sorted-before` when the Vec is sorted between the fill and the loop.
+"""
+import hashlib
 import os
 import re
 
@@ -7,11 +23,43 @@ CRATES = ["src", "ir/src", "hlsl/src", "msl/src", "typer/src", "parser/src", "fo
 ITER_METHODS = ["iter", "iter_mut", "keys", "values", "values_mut", "into_iter", "into_keys", "into_values",
                 "drain", "retain"]
 
+EARLY_EXIT = re.compile(
+    r'\bbreak\b|\breturn\b|\?\s*(?:[;.,)\]}]|$)|\.\s*(?:find|find_map|first|last|next|position|rposition|nth|take|skip|'
+    r'take_while|skip_while|enumerate|zip|rev|min_by|max_by|min_by_key|max_by_key|reduce|try_for_each|try_fold)\s*\(',
+    re.M)
+DIAGNOSTIC = re.compile(r'\bErr\s*\(|\b[A-Za-z_]*Error\s*::|\bpanic!|\bunreachable!|\btodo!|\bunimplemented!|'
+                        r'\b(?:debug_)?assert(?:_eq|_ne)?!|\.\s*expect\s*\(')
+FIRST_WINS = re.compile(r'\.\s*is_none\s*\(\s*\)|\.\s*is_some\s*\(\s*\)|\bget_or_insert|\.\s*or_insert(?:_with)?\s*\(|'
+                        r'==\s*None\b|!=\s*None\b|\bif\s+let\s+None\b')
+PATH = r'(?:[A-Za-z_][A-Za-z_0-9]*)(?:\s*\.\s*(?:[A-Za-z_][A-Za-z_0-9]*|\d+)|\s*\[[^\]]*\])*'
+
+
+def strip_literals(s):
+    """blank out string / char literals so that keywords inside messages do not count"""
+    from rustsrc import skip_literal
+    out, i = [], 0
+    while i < len(s):
+        k = skip_literal(s, i)
+        if k is not None:
+            out.append('""')
+            i = k
+        else:
+            out.append(s[i])
+            i += 1
+    return "".join(out)
+
+
+def fingerprint(body):
+    norm = re.sub(r'\s+', ' ', body).strip()
+    bare = strip_literals(norm)
+    return (hashlib.sha256(norm.encode()).hexdigest()[:12], bool(EARLY_EXIT.search(bare)),
+            bool(DIAGNOSTIC.search(bare)), bool(FIRST_WINS.search(bare)))
+
 
 def register(gen, T):
     @gen("HashSites")
     def hash_sites():
-        from rustsrc import lean_str
+        from rustsrc import lean_str, matching
         files = []
         for crate in CRATES:
             base = os.path.join(T.REPO, crate)
@@ -36,52 +84,67 @@ def register(gen, T):
             # let bindings initialised from a constructor
             for m in re.finditer(r'\blet\s+(?:mut\s+)?([a-z_][a-z_0-9]*)\s*(?::[^=;]+)?=\s*(?:std::collections::)?Hash(?:Map|Set)\s*::', text):
                 names.add(m.group(1))
-            # clones / references of known hash names
+            # clones / references / moves (std::mem::take, replace) of known hash names
             changed = True
             while changed:
                 changed = False
-                for m in re.finditer(r'\blet\s+(?:mut\s+)?([a-z_][a-z_0-9]*)\s*=\s*&?\s*(?:mut\s+)?(?:self\s*\.\s*)?([a-z_][a-z_0-9]*)\s*(?:\.\s*clone\s*\(\s*\))?\s*;', text):
-                    if m.group(2) in names and m.group(1) not in names:
+                for m in re.finditer(r'\blet\s+(?:mut\s+)?([a-z_][a-z_0-9]*)\s*(?::[^=;]+)?=\s*'
+                                     r'(?:(?:std\s*::\s*)?mem\s*::\s*(?:take|replace)\s*\(\s*)?&?\s*(?:mut\s+)?(' + PATH + r')'
+                                     r'\s*(?:,[^;]*)?\)?\s*(?:\.\s*clone\s*\(\s*\))?\s*;', text):
+                    last = re.split(r'[.\[]', re.sub(r'\s+', '', re.sub(r'\[[^\]]*\]', '', m.group(2))))[-1]
+                    if last in names and m.group(1) not in names:
                         names.add(m.group(1))
                         changed = True
             tuple_hash = bool(re.search(r'struct\s+[A-Za-z_]+\s*\(\s*(?:pub\s+)?Hash(?:Map|Set)\b', text))
             if not names and not tuple_hash and not any(h in text for h in hash_fns):
                 continue
-            # current function name per position
-            fn_pos = [(m.start(), m.group(1)) for m in re.finditer(r'\bfn\s+([a-z_0-9]+)', text)]
+            # function extents: (start of `fn`, name, open brace, close brace); declarations without a body are skipped
+            fns = []
+            for m in re.finditer(r'\bfn\s+([a-z_0-9]+)', text):
+                j = m.end()
+                depth = 0
+                ob = None
+                while j < len(text):
+                    c = text[j]
+                    if c in '([<' and not (c == '<' and text[j - 1] == '-'):
+                        depth += 1
+                    elif c in ')]>' and not (c == '>' and text[j - 1] in '-='):
+                        depth -= 1
+                    elif c == ';' and depth <= 0:
+                        break
+                    elif c == '{' and depth <= 0:
+                        ob = j
+                        break
+                    j += 1
+                if ob is None:
+                    continue
+                try:
+                    cb = matching(text, ob)
+                except Exception:
+                    continue
+                fns.append((m.start(), m.group(1), ob, cb))
+
+            def outer_fn(pos):
+                """the outermost function whose body contains pos"""
+                for st, n, ob, cb in fns:
+                    if ob <= pos <= cb:
+                        return (st, n, ob, cb)
+                return None
 
             def fn_at(pos):
                 cur = "?"
-                for p, n in fn_pos:
-                    if p <= pos:
+                for st, n, ob, cb in fns:
+                    if st <= pos:
                         cur = n
                     else:
                         break
                 return cur
 
             def sorts_after(pos):
-                """receivers of .sort*/.sort_by* calls between pos and the end of the enclosing function"""
-                from rustsrc import matching
-                start = None
-                for p_, n_ in fn_pos:
-                    if p_ <= pos:
-                        start = p_
-                b = text.find('{', start if start is not None else 0)
-                # the enclosing *outermost* function containing pos
-                best_end = len(text)
-                for p_, n_ in fn_pos:
-                    if p_ > pos:
-                        break
-                    ob = text.find('{', p_)
-                    if ob < 0:
-                        continue
-                    try:
-                        cb = matching(text, ob)
-                    except Exception:
-                        continue
-                    if ob <= pos <= cb:
-                        best_end = min(best_end, cb)
-                recv = re.findall(r'([a-z_][a-z_0-9\.]*)\s*\.\s*sort(?:_by|_unstable|_by_key|_unstable_by)?\s*\(', text[pos:best_end])
+                """receivers of .sort*/.sort_by* calls between pos and the end of the enclosing outermost function"""
+                o = outer_fn(pos)
+                end = o[3] if o else len(text)
+                recv = re.findall(r'([a-z_][a-z_0-9\.]*)\s*\.\s*sort(?:_by|_unstable|_by_key|_unstable_by|_unstable_by_key)?\s*\(', text[pos:end])
                 return "|sorts:" + ",".join(sorted(set(recv))) if recv else ""
 
             def is_hash_expr(expr):
@@ -96,27 +159,150 @@ def register(gen, T):
                     return True
                 return False
 
+            def statement_around(pos):
+                """the statement containing pos: back to the previous `;` `{` `}`, forward to the `;` at depth 0 or
+                through the block that the statement opens"""
+                a = pos
+                while a > 0 and text[a - 1] not in ';{}':
+                    a -= 1
+                j = pos
+                depth = 0
+                while j < len(text):
+                    c = text[j]
+                    if c in '([':
+                        depth += 1
+                    elif c in ')]':
+                        depth -= 1
+                        if depth < 0:
+                            break
+                    elif c == '{':
+                        try:
+                            j = matching(text, j)
+                        except Exception:
+                            break
+                        if depth <= 0:
+                            # a block at statement level ends the statement unless a method chain continues
+                            k = j + 1
+                            while k < len(text) and text[k].isspace():
+                                k += 1
+                            if k < len(text) and text[k] in '.;)':
+                                j = k - 1
+                            else:
+                                j += 1
+                                break
+                    elif c == ';' and depth <= 0:
+                        j += 1
+                        break
+                    elif c == '}' and depth <= 0:
+                        break
+                    j += 1
+                return a, j
+
+            found = []   # (pos, how, body text, (a, b) range of the body)
+            hash_loops = []  # (pos, source expr, body range) of iterations over hash ordered containers
             # for PAT in EXPR {
+            for_headers = set()
             for m in re.finditer(r'\bfor\s+(.+?)\s+in\s+([^{]+?)\s*\{', text):
                 expr = m.group(2)
                 if is_hash_expr(expr) and not re.search(r'\.\.', expr):
-                    sites.append((f, fn_at(m.start()), "for:" + re.sub(r'\s+', '', expr) + sorts_after(m.start())))
+                    ob = m.end() - 1
+                    try:
+                        cb = matching(text, ob)
+                    except Exception:
+                        cb = ob
+                    e = re.sub(r'\s+', '', expr)
+                    found.append((m.start(), "for:" + e + sorts_after(m.start()), text[ob:cb + 1]))
+                    hash_loops.append((m.start(), e, (ob, cb)))
+                    for_headers.add((m.start(), m.end()))
             # method-style iteration
             for m in re.finditer(r'((?:[A-Za-z_][A-Za-z_0-9]*|\.\s*\d+)(?:\s*\.\s*(?:[A-Za-z_][A-Za-z_0-9]*|\d+)|\s*\[[^\]]*\]|\s*\([^()]*\))*)\s*\.\s*(' + "|".join(ITER_METHODS) + r')\s*\(', text):
                 recv = re.sub(r'\s+', '', m.group(1))
                 if is_hash_expr(recv):
-                    # a `for .. in x.iter()` site is already recorded by the for-pattern above: keep one form
-                    sites.append((f, fn_at(m.start()), "method:" + recv + "." + m.group(2) + sorts_after(m.start())))
+                    a, b = statement_around(m.start())
+                    found.append((m.start(), "method:" + recv + "." + m.group(2) + sorts_after(m.start()), text[a:b]))
+                    if not any(s <= m.start() < e for s, e in for_headers):
+                        hash_loops.append((m.start(), recv, (a, b)))
             # collecting/extending from a hash container without an explicit iteration method
             for m in re.finditer(r'\b(extend|from_iter)\s*\(\s*&?\s*(?:mut\s+)?([A-Za-z_][A-Za-z_0-9\.\s]*)\)', text):
                 if is_hash_expr(m.group(2)) and ".iter" not in m.group(2):
-                    sites.append((f, fn_at(m.start()), m.group(1) + ":" + re.sub(r'\s+', '', m.group(2)) + sorts_after(m.start())))
-        # drop the duplicate `method:` record of an iteration that is also a `for` header
+                    a, b = statement_around(m.start())
+                    found.append((m.start(), m.group(1) + ":" + re.sub(r'\s+', '', m.group(2)) + sorts_after(m.start()), text[a:b]))
+                    hash_loops.append((m.start(), re.sub(r'\s+', '', m.group(2)), (a, b)))
+
+            # Vecs filled in hash order inside the same function, to a fixpoint
+            derived = {}   # (fn start, name) -> (source, fill position)
+            work = list(hash_loops)
+            seen_loops = set()
+            while work:
+                pos, source, (a, b) = work.pop()
+                if (pos, a, b) in seen_loops:
+                    continue
+                seen_loops.add((pos, a, b))
+                o = outer_fn(pos)
+                if o is None:
+                    continue
+                body = text[a:b + 1]
+                filled = set(re.findall(r'\b([a-z_][a-z_0-9]*)\s*\.\s*(?:push|push_back|push_front|push_str|extend|insert)\s*\(', body))
+                lm = re.match(r'\s*let\s+(?:mut\s+)?([a-z_][a-z_0-9]*)\b[^=]*=', body)
+                if lm and re.search(r'\.\s*collect\s*(?:::\s*<[^;]*>)?\s*\(|from_iter\s*\(|\.\s*(?:cloned|copied|map|filter|filter_map)\s*\(', body):
+                    filled.add(lm.group(1))
+                for name in filled:
+                    if name in names or name == "self":
+                        continue
+                    # must be a local Vec / String / VecDeque of this function (not a set / map: inserting is order free)
+                    decl = re.search(r'\blet\s+(?:mut\s+)?' + name + r'\b\s*(?::\s*([^=;]+))?=\s*([^;]*);', text[o[2]:o[3]])
+                    if not decl:
+                        continue
+                    decl_text = (decl.group(1) or "") + " " + decl.group(2)
+                    if re.search(r'\bHash(Map|Set)\b|\bBTree(Map|Set)\b', decl_text):
+                        continue
+                    key = (o[0], name)
+                    if key not in derived:
+                        derived[key] = (source, pos)
+                        # every later loop over this Vec in the function is a site
+                        for m in re.finditer(r'\bfor\s+(.+?)\s+in\s+([^{]+?)\s*\{', text[o[2]:o[3]]):
+                            e = re.sub(r'\s+', '', m.group(2))
+                            base = re.sub(r'^&(mut)?', '', e)
+                            base = re.split(r'[.\[(]', base)[0]
+                            if base != name:
+                                continue
+                            lpos = o[2] + m.start()
+                            if lpos <= pos and not (a <= lpos <= b):
+                                pass
+                            ob = o[2] + m.end() - 1
+                            try:
+                                cb = matching(text, ob)
+                            except Exception:
+                                cb = ob
+                            sorted_before = re.search(r'\b' + name + r'\s*\.\s*sort(?:_by|_unstable|_by_key|_unstable_by|_unstable_by_key)?\s*\(', text[pos:lpos]) if lpos > pos else None
+                            how = "for:" + e + "|from:" + source + ("|sorted-before" if sorted_before else "")
+                            found.append((lpos, how, text[ob:cb + 1]))
+                            if not sorted_before:
+                                # what a loop over a sorted Vec fills is in sorted order: the taint stops here
+                                work.append((lpos, name, (ob, cb)))
+                        for m in re.finditer(r'\b' + name + r'\s*\.\s*(' + "|".join(ITER_METHODS) + r')\s*\(', text[o[2]:o[3]]):
+                            lpos = o[2] + m.start()
+                            if any(s <= lpos < e for s, e in
+                                   [(o[2] + x.start(), o[2] + x.end()) for x in re.finditer(r'\bfor\s+(.+?)\s+in\s+([^{]+?)\s*\{', text[o[2]:o[3]])]):
+                                continue
+                            sa, sb = statement_around(lpos)
+                            sorted_before = re.search(r'\b' + name + r'\s*\.\s*sort(?:_by|_unstable|_by_key|_unstable_by|_unstable_by_key)?\s*\(', text[pos:lpos]) if lpos > pos else None
+                            how = "method:" + name + "." + m.group(1) + "|from:" + source + ("|sorted-before" if sorted_before else "")
+                            found.append((lpos, how, text[sa:sb]))
+                            if not sorted_before:
+                                work.append((lpos, name, (sa, sb)))
+            for pos, how, body in found:
+                h, early, diag, first = fingerprint(body)
+                sites.append((f, fn_at(pos), how, h, early, diag, first))
         uniq = sorted(set(sites))
         out = [T.header("HashSites", ["every non-test .rs file of the workspace"])]
-        out.append("/-- (file, enclosing fn, how the hash container is traversed) -/\n")
-        out.append("def sites : List (String × String × String) := [\n")
-        out.append(",\n".join(f"  ({lean_str(a)}, {lean_str(b)}, {lean_str(c)})" for a, b, c in uniq))
+        out.append("/-- one place where a hash ordered container is traversed, with what happens inside the traversal -/\n")
+        out.append("structure Site where\n  file : String\n  fn : String\n  how : String\n  bodyHash : String\n"
+                   "  hasEarlyExit : Bool\n  buildsDiagnostic : Bool\n  firstWins : Bool\n  deriving DecidableEq, Repr\n\n")
+        out.append("def sites : List Site := [\n")
+        out.append(",\n".join(
+            f"  ⟨{lean_str(a)}, {lean_str(b)}, {lean_str(c)}, {lean_str(h)}, {str(e).lower()}, {str(d).lower()}, {str(w).lower()}⟩"
+            for a, b, c, h, e, d, w in uniq))
         out.append("\n]\n\n")
         out.append("def hashReturningFns : List String := " + T.lean_list(lean_str(h) for h in sorted(hash_fns)) + "\n")
         # other sources of nondeterminism: none may be used
@@ -131,9 +317,67 @@ def register(gen, T):
         for f, text in texts.items():
             for m in re.finditer(r'(scope_block\s*\.\s*1|\b[a-z_]+\s*\.\s*1)\s*\.\s*variables\s*\.\s*([a-z_]+)', text):
                 cons.append((f, m.group(2)))
-            for m in re.finditer(r'ScopedDeclarations\s*\{', text):
-                pass
         out.append("\n/-- every method applied to `<scope block>.1.variables` (the only hash-ordered vector stored in the IR) -/\n")
         out.append("def scopedDeclarationConsumers : List (String × String) := [" + ", ".join(f"({lean_str(a)}, {lean_str(b)})" for a, b in sorted(set(cons))) + "]\n")
         out.append(T.footer("HashSites"))
+        return "".join(out)
+
+
+    @gen("EnumRange")
+    def enum_range():
+        """The pieces of typer/src/typer/scopes.rs Context::end_enum that Model/EnumRange.lean transcribes:
+        the arms of the range-gathering loop, the choice of the underlying type, the location and payload of the
+        range error, and the conversion of the values."""
+        from rustsrc import lean_str, fn_body, first_match, match_arms, normws, matching, ExtractError
+        rel = "typer/src/typer/scopes.rs"
+        body = fn_body(T.src(rel), "end_enum")
+        loops = [m for m in re.finditer(r'\bfor\s+\(\s*_\s*,\s*enum_value_id\s*\)\s+in\s+&enum_values\s*\{', body)]
+        if len(loops) != 2:
+            raise ExtractError(f"end_enum: expected 2 loops over &enum_values by id, found {len(loops)}")
+        bodies = []
+        for m in loops:
+            ob = m.end() - 1
+            bodies.append(body[ob + 1:matching(body, ob)])
+        # loop 1: min / max fold
+        init = re.findall(r'let\s+mut\s+(min_value|max_value)\s*=\s*([^;]+);', body[:loops[0].start()])
+        scrut, arms_text, _ = first_match(bodies[0], r'\*constant')
+        gather = []
+        for pats, guard, result in match_arms(arms_text):
+            gather.append((" | ".join(pats), guard or "", result))
+        rest = normws(bodies[0][:bodies[0].index("match")])
+        # selection of the underlying type
+        sm = re.search(r'let\s+scalar_type\s*=\s*if\b', body)
+        if not sm:
+            raise ExtractError("end_enum: `let scalar_type = if` not found")
+        j = sm.end()
+        sel_end = None
+        depth = 0
+        while j < len(body):
+            if body[j] == '{':
+                j = matching(body, j)
+            elif body[j] == ';':
+                sel_end = j
+                break
+            j += 1
+        if sel_end is None:
+            raise ExtractError("end_enum: end of the scalar_type selection not found")
+        select = normws(body[sm.start():sel_end + 1])
+        # loop 2: conversion of the values
+        scrut2, arms2, e2 = first_match(bodies[1], r'\*constant')
+        widen = [(" | ".join(p), g or "", r) for p, g, r in match_arms(arms2)]
+        scrut3, arms3, _ = first_match(bodies[1], r'scalar_type', e2)
+        convert = [(" | ".join(p), g or "", r) for p, g, r in match_arms(arms3)]
+        out = [T.header("EnumRange", [rel + " Context::end_enum"])]
+
+        def triples(name, doc, rows):
+            return (f"/-- {doc} -/\ndef {name} : List (String × String × String) := [\n" +
+                    ",\n".join(f"  ({lean_str(a)}, {lean_str(b)}, {lean_str(c)})" for a, b, c in rows) + "\n]\n\n")
+        out.append("/-- initial values of the fold -/\ndef init : List (String × String) := [" +
+                   ", ".join(f"({lean_str(a)}, {lean_str(normws(b))})" for a, b in init) + "]\n\n")
+        out.append(f"/-- what the range loop does before its match -/\ndef gatherPrefix : String := {lean_str(rest)}\n\n")
+        out.append(triples("gatherArms", "arms (pattern, guard, body) of the match in the range-gathering loop", gather))
+        out.append(f"/-- the choice of the underlying type including the error branch -/\ndef select : String := {lean_str(select)}\n\n")
+        out.append(triples("widenArms", "arms of the widening match in the value-conversion loop", widen))
+        out.append(triples("convertArms", "arms of the conversion to the chosen type", convert))
+        out.append(T.footer("EnumRange"))
         return "".join(out)
